@@ -6,8 +6,8 @@ import os
 from driver import common as C
 
 PID = "C07"
-QUICK = ["b0c2window", "b1c3window", "b3c1window", "b0c0window", "b1c2delete"]
-THOROUGH = QUICK + ["b0c4window", "b2c4window", "b1c1window", "b0c3window"]
+QUICK = ["b0c2window", "b1c3window", "b3c1window", "b0c0window", "b1c2delete", "b0c4window"]
+THOROUGH = QUICK + ["b2c4window", "b1c1window", "b0c3window"]
 
 
 def run(tier, replay=None):
@@ -38,7 +38,8 @@ def run(tier, replay=None):
     run.rule = ("for each (base, count, roller kind) instance every initial directory (all subsets of the indices "
                 "base-1..base+count present, distinct contents) and count+2 successive rolls; each behaviour is "
                 "replayed through Roll::roll with the index in the file name, in a directory component, repeated, "
-                "behind $ENV{..}, and with a .gz pattern (archives decompressed for comparison); the full recursive "
+                "behind $ENV{..} (value containing the placeholder; index inside the variable name), with the rolled file on another "
+                "filesystem than the archives, and with a .gz pattern (archives decompressed for comparison); the full recursive "
                 "snapshot is compared after every roll incl. bystander files; non-trivial = initial directory with "
                 "both present and absent indices (gaps / partial windows)")
     run.assumptions = ["contents are 5 representatives (empty, short, 5 KB, multi-byte, two lines)",
